@@ -107,16 +107,29 @@ Fixpoint derivs (p : pat) (fs : list (N -> bool)) : pat :=
   match fs with [] => p | f :: r => derivs (deriv f p) r end.
 
 (* ------------------------------------------------------------------ rows, DEFINE *)
-Record crow := mkCRow { r_id : Z; r_cls : N; r_v : Z; r_ts : Z }.
+(* [r_cls]: the class code of column c: 0..4 = 'a'..'e'; a code >= 5 = the event does not carry the
+   column (or carries an explicit NULL). [r_vnull] = true: column v is absent / NULL ([r_v] is then
+   meaningless). Events are heterogeneous maps (a heartbeat next to a reading): cep/eval.go
+   evalPrepared fills the variable table of ONE evaluation with the columns the CURRENT row has; a
+   column it lacks is NULL in that evaluation, whatever earlier rows (of any partition) carried. *)
+Record crow := mkCRow { r_id : Z; r_cls : N; r_v : Z; r_ts : Z; r_vnull : bool }.
 
 (* DEFINE of one variable: the row's class is in [d_mask] (bit set), and optionally a comparison
    of column v with PREV(v): d_cmp = 1: v > PREV(v), 2: v < PREV(v), else none *)
 Record cdef := mkDef { d_mask : N; d_cmp : N }.
 
+(* the class test (c = 'x' OR c = 'y' ...), x.. = the bits of [mask] among 0..4. d_mask = 31 stands
+   for "no class test in the DEFINE" (true of every row, also of one without column c); any written
+   test is NULL = not true on a row without column c (class code >= 5 has no bit in a mask < 31) *)
+Definition cls_ok (mask cls : N) : bool := N.eqb mask 31 || N.testbit mask cls.
+
+(* a comparison with NULL (v absent in the candidate row, or in the previous row of the run) is not true *)
 Definition cmp_ok (c : N) (prev : option crow) (r : crow) : bool :=
   match c with
-  | 1%N => match prev with None => false | Some q => Z.ltb (r_v q) (r_v r) end
-  | 2%N => match prev with None => false | Some q => Z.ltb (r_v r) (r_v q) end
+  | 1%N => match prev with None => false
+           | Some q => negb (r_vnull q) && negb (r_vnull r) && Z.ltb (r_v q) (r_v r) end
+  | 2%N => match prev with None => false
+           | Some q => negb (r_vnull q) && negb (r_vnull r) && Z.ltb (r_v r) (r_v q) end
   | _ => true
   end.
 
@@ -124,7 +137,7 @@ Definition cmp_ok (c : N) (prev : option crow) (r : crow) : bool :=
 Definition sat (defs : list cdef) (prev : option crow) (r : crow) (v : N) : bool :=
   match nth_error defs (N.to_nat v) with
   | None => true
-  | Some d => N.testbit (d_mask d) (r_cls r) && cmp_ok (d_cmp d) prev r
+  | Some d => cls_ok (d_mask d) (r_cls r) && cmp_ok (d_cmp d) prev r
   end.
 
 (* the classification of a run of rows: one predicate per row *)
@@ -208,6 +221,14 @@ Definition cobs := (nat * Z * Z * nat)%type.
 Definition obs_of (rows : list crow) (m : nat * (nat * nat)) : cobs :=
   let '(mn, (pos, k)) := m in (mn, id_at rows pos, id_at rows (pos + k - 1), k).
 Definition ref_obs (c : ccfg) (rows : list crow) : list cobs := map (obs_of rows) (cep_number (ref_matches c rows)).
+
+(* MEASURES c AS bc, v AS bv (bare columns, ONE ROW PER MATCH): cep/engine.go evalMeasures evaluates
+   them on the LAST row of the match; a column that row lacks is NULL. Observable: the class code
+   (5 = NULL) and v (None = NULL). *)
+Definition bare_of (r : crow) : N * option Z :=
+  (if N.ltb (r_cls r) 5 then r_cls r else 5%N, if r_vnull r then None else Some (r_v r)).
+Definition bare_obs (seg : list crow) : option (N * option Z) :=
+  match rev seg with [] => None | r :: _ => Some (bare_of r) end.
 
 (* ------------------------------------------------------------------ partitions *)
 Definition cstream := list (N * crow).
